@@ -186,6 +186,10 @@ FIXED_FUNCS = (
     # reads the error record outside any handler, and can fail inside its own handler
     'function eh(x) return integer is begin print "@@E:" isnull(error@1) " [" error@1 "]"; '
     'if x then begin raise oops; exception when oops then raise again; end; end if; return 1; end;\n'
+    # nested protected blocks: the inner handler fails, the enclosing block of the same function recovers; the error record is read outside any handler
+    'function eh2(x) return integer is begin print "@@F:" isnull(error@1) " [" error@1 "] [" error@2 "]"; '
+    'if x then begin begin raise first_failure; exception when first_failure then raise second_failure; end; exception when second_failure then nop; end; end if; '
+    'print "@@F:" isnull(error@1) " [" error@1 "]"; return 2; end;\n'
     # locals assigned on one path only, probed with isnull() and then read again
     'function lz(x) return integer is begin if x then v = 5; w = tab(1, 7); u = "set"; end if; '
     'if isnull(v) then print "@@L:v unset"; end if; if isnull(w) then print "@@L:w unset"; end if; if isnull(u) then print "@@L:u unset"; end if; '
@@ -204,7 +208,7 @@ FIXED_EXPECT = {"c = g(1, g(2, 3));": "33", "c = inc(inc(inc(0)));": "3", "c = g
                 "c = g(dbl(1), dbl(2)) + g(dbl(3), dbl(4));": "92", "c = lp(2);": "1015", "c = lp(5);": "15"}
 FIXED_CALLS = ["c = dbl(1) + dbl(2);", "c = dbl(5) - dbl(1);", "c = fib(10);", "c = strlen(tag(\"a\") + tag(\"bc\"));", "c = dbl(dbl(1) + dbl(2)) * dbl(3);",
                "c = tb(2).count() + tb(3).count() * 10;", "c = g(dbl(1), dbl(2)) + g(dbl(3), dbl(4));", "c = g(1, g(2, 3));", "c = inc(inc(inc(0)));", "c = g(inc(1), g(inc(2), inc(3)));", "c = eh(false);", "c = eh(true);", "c = lz(true);", "c = lz(false);",
-               "c = lp(2);", "c = lp(5);", "c = ap(tab(1, 0), \"x\");", "c = g(1, eh(true));", "c = g(lz(false), lz(true));", "c = inc(10 / 0);", "c = g(1, g(2, 10 / 0));"]
+               "c = eh2(false);", "c = eh2(true);", "c = lp(2);", "c = lp(5);", "c = ap(tab(1, 0), \"x\");", "c = g(1, eh(true));", "c = g(lz(false), lz(true));", "c = inc(10 / 0);", "c = g(1, g(2, 10 / 0));"]
 
 
 def _fixed_twins(self):
